@@ -25,7 +25,7 @@ RULE = ('per run and DNS class (names, MX, DS, RRSIG, TXT, DNSKEY, private RR ty
         'the C02/C03/C05 statements evaluated on the real code for every input; every DNSKEY RDATA among them also as a KT '
         'op (model key tag, Lean RFC 4034 App. B value, real key_tag, Python reference); RFC-level values (every algorithm, '
         'RSA with 1- and 3-octet exponent length and odd/even modulus sizes, all 8 flag subsets, Ed448 with 57 octets, EC '
-        'coordinates with leading zero octets, private RR types, timestamps 0 / 2^31 / 2^32-1, root and 255-octet names, '
+        'coordinates with leading zero octets, private RR types, timestamps 0 / 2^31 / 2^32-1 (an instant), root and 255-octet names, '
         'multi-string and >255-octet TXT) encoded by the reference encoder and checked for acceptance, exact recovery, '
         'byte-for-byte re-composition and key tag. Non-trivial: the input is not all zero; distinct: (class, bytes).')
 ASSUMPTIONS = [
@@ -355,7 +355,6 @@ def dnskey_c05(data):
 
 # the generic C05 keys of clsops.check_input, grouped by root cause
 ROOT_CAUSE = {
-    'recompose:DnsRecordTxt:InvalidValue': 'txt-over-255',
     'recompose:DnsNameUncompressed:InvalidValue': 'label-accepted-not-composable',
     'recompose:DnsRecordMx:InvalidValue': 'label-accepted-not-composable',
     'recompose:DnsRecordRrsig:InvalidValue': 'label-accepted-not-composable',
@@ -412,8 +411,7 @@ class KtOracle(object):
 
 
 # one finding key per root cause: every symptom of these tags is reported under the tag's key
-TAG_KEY = {'ed448': 'ed448-key-56-octets', 'ec-leading-zero': 'ec-leading-zero-coordinates', 'txt-over-255': 'txt-over-255',
-           'rrsig-short': 'rrsig-header-size'}
+TAG_KEY = {'ed448': 'ed448-key-56-octets', 'rrsig-short': 'rrsig-header-size'}
 
 
 def tag_key(what, tag):
@@ -547,9 +545,9 @@ def spec_dnskeys(rng, tier):
         head = be(rng.choice(subsets), 2) + b'\x03'
         # both coordinates with a leading zero octet (one key in 65536)
         for alg, (_, size) in sorted(EC_ALGS.items()):
-            out.append(('ec-leading-zero', head + be(alg, 1) + b'\x00' + be(rint(rng, size - 1), size - 1) + b'\x00' +
+            out.append(({13: 'ec256', 14: 'ec384', 12: 'gost'}[alg], head + be(alg, 1) + b'\x00' + be(rint(rng, size - 1), size - 1) + b'\x00' +
                         be(rint(rng, size - 2), size - 1), True))
-            out.append(('ec-one-leading-zero', head + be(alg, 1) + b'\x00' + be(rint(rng, size - 1), size - 1) +
+            out.append(({13: 'ec256', 14: 'ec384', 12: 'gost'}[alg], head + be(alg, 1) + b'\x00' + be(rint(rng, size - 1), size - 1) +
                         be(rint(rng, size), size), True))
     return out
 
@@ -569,20 +567,20 @@ def spec_cases(rng, tier):
         add('DnsRecordMx', 'mx', be(rng.choice([0, 10, 65535, rng.randrange(65536)]), 2) + ref_enc_name(labels))
         add('DnsRecordDs', 'ds', be(rng.randrange(65536), 2) + be(rng.choice([5, 7, 8, 10, 13, 14, 15, 16]), 1) +
             be(rng.choice([1, 2, 4]), 1) + gen_dns.rbytes(rng, rng.choice([20, 32, 48])))
-        for ts, tag in ((rng.choice([0, 1, 2 ** 31 - 1, 2 ** 31, 2 ** 32 - 2, rng.randrange(2 ** 32 - 1)]), 'rrsig'),
-                        (2 ** 32 - 1, 'rrsig-timestamp-ffffffff')):
+        for ts, tag in ((rng.choice([0, 1, 2 ** 31 - 1, 2 ** 31, 2 ** 32 - 2, rng.randrange(2 ** 32)]), 'rrsig'),
+                        (2 ** 32 - 1, 'rrsig')):
             signer = [l.encode('ascii') for l in gen_dns.labels(rng)]
             add('DnsRecordRrsig', tag,
                 be(rng.choice([1, 15, 16, 48, 257, 0xff00, 0xfffe, rng.randrange(0xff00, 0xffff)]), 2) +
                 be(rng.choice([8, 13, 15]), 1) + be(rng.randrange(128), 1) + be(rng.choice([0, 3600, 2 ** 32 - 1]), 4) +
-                be(ts, 4) + be(rng.choice([0, 1600000000, 2 ** 32 - 2]), 4) + be(rng.randrange(65536), 2) +
+                be(ts, 4) + be(rng.choice([0, 1600000000, 2 ** 32 - 2, 2 ** 32 - 1]), 4) + be(rng.randrange(65536), 2) +
                 ref_enc_name(signer) + gen_dns.rbytes(rng, rng.choice([64, 96, 256])))
         text = gen_dns.txt_text(rng, rng.choice([0, 1, 30, 255])).encode('ascii')
         add('DnsRecordTxt', 'txt', bytes([len(text)]) + text)
         parts = [gen_dns.txt_text(rng, rng.choice([0, 3, 40])).encode('ascii') for _ in range(rng.choice([2, 3]))]
         add('DnsRecordTxt', 'txt-multi', b''.join(bytes([len(p)]) + p for p in parts), canonical=False)
         parts = [gen_dns.txt_text(rng, 255).encode('ascii'), gen_dns.txt_text(rng, rng.choice([1, 100, 255])).encode('ascii')]
-        add('DnsRecordTxt', 'txt-over-255', b''.join(bytes([len(p)]) + p for p in parts), canonical=False)
+        add('DnsRecordTxt', 'txt-long', b''.join(bytes([len(p)]) + p for p in parts))     # 255 + k: the composed form
         add('DnsRrTypePrivate', 'private-type', be(rng.choice([0xff00, 0xfffe, rng.randrange(0xff00, 0xffff)]), 2))
     # a valid RRSIG shorter than the class's HEADER_SIZE
     add('DnsRecordRrsig', 'rrsig-short', be(1, 2) + be(8, 1) + be(0, 1) + be(3600, 4) + be(1600000000, 4) + be(1500000000, 4) +
@@ -597,10 +595,10 @@ def txt_compose_check(rng):
     try:
         data = bytes(DnsRecordTxt(text).compose())
     except Exception as exc:  # pylint: disable=broad-except
-        return [('txt-over-255', 'DnsRecordTxt of {} characters cannot be composed: {}'.format(len(text), err_line(exc)),
+        return [('compose:DnsRecordTxt:long', 'DnsRecordTxt of {} characters cannot be composed: {}'.format(len(text), err_line(exc)),
                  {'kind': 'txt-compose', 'n': len(text)})]
     if ref_canon('DnsRecordTxt', data) != 'DnsRecordTxt({})'.format(hx(text.encode('ascii'))):
-        return [('txt-over-255', 'DnsRecordTxt of {} characters composes to RDATA that does not hold it'.format(len(text)),
+        return [('compose:DnsRecordTxt:long', 'DnsRecordTxt of {} characters composes to RDATA that does not hold it'.format(len(text)),
                  {'kind': 'txt-compose', 'n': len(text)})]
     return []
 
@@ -688,9 +686,7 @@ def class_cases(run, per_class, mutations, late):
             try:
                 data = bytes(obj.compose())
             except Exception as exc:  # pylint: disable=broad-except
-                key = 'txt-over-255' if name == 'DnsRecordTxt' and len(obj.value) > 255 else \
-                    'compose:{}:{}'.format(name, type(exc).__name__)
-                late.append((key, '{}: compose() of a constructed object raised {}'.format(name, err_line(exc)),
+                late.append(('compose:{}:{}'.format(name, type(exc).__name__), '{}: compose() of a constructed object raised {}'.format(name, err_line(exc)),
                              {'kind': 'constructed', 'cls': name}))
                 continue
             try:
@@ -784,5 +780,5 @@ def replay(case):
         try:
             DnsRecordTxt('a' * 300).compose()
         except Exception as exc:  # pylint: disable=broad-except
-            return [('txt-over-255', 'DnsRecordTxt of 300 characters cannot be composed: {}'.format(err_line(exc)))]
+            return [('compose:DnsRecordTxt:long', 'DnsRecordTxt of 300 characters cannot be composed: {}'.format(err_line(exc)))]
     return []
